@@ -93,8 +93,17 @@ ZOpen == <<TSeq(<<Comp(I07, "man", <<>>), Comp(TStr("ia5", NoSz), "opt", <<>>), 
 
 \* more than 64 presence flags in the preamble, and more than 64 extension additions (their number then takes the
 \* ">= 64" form of the normally small number, 11.6.2); values: everything present / absent (Rep) and a few patterns (ExtraVals)
+\* semi-constrained sizes, SIZE(n..MAX) with n >= 1: the length determinant is the unconstrained one, the lower bound
+\* still decides what is a value (too short must be refused), and with "..." a shorter value takes the extension form
+ZSemi == <<TOct(Sz(1, SzMAX, FALSE)), TBits(Sz(2, SzMAX, FALSE)), TStr("ia5", Sz(1, SzMAX, FALSE)), TStr("utf8", Sz(2, SzMAX, FALSE)),
+           TSeqOf(TBool, Sz(1, SzMAX, FALSE)), TSeqOf(I07, Sz(2, SzMAX, TRUE)), TOct(Sz(1, SzMAX, TRUE)),
+           TSeq(<<Comp(TSeqOf(TBool, Sz(1, SzMAX, FALSE)), "opt", <<>>), Comp(TStr("num", Sz(1, SzMAX, FALSE)), "man", <<>>)>>, 2, FALSE)>>
+
 ZWide == <<TSeq([i \in 1..66 |-> Comp(TBool, "opt", <<>>)], 66, FALSE),
-           TSeq(<<Comp(I07, "man", <<>>)>> \o [i \in 1..65 |-> Comp(TBool, "opt", <<>>)], 1, TRUE)>>
+           TSeq(<<Comp(I07, "man", <<>>)>> \o [i \in 1..65 |-> Comp(TBool, "opt", <<>>)], 1, TRUE),
+           \* extension values / alternatives on both sides of addition index 64 (the boundary of 11.6.1 / 11.6.2)
+           TEnum(2, 66, TRUE),
+           TChoice([i \in 1..68 |-> IF i % 2 = 1 THEN I07 ELSE TBool], 2, TRUE)>>
 
 \* mixed types: pseudo-randomly composed trees (depth <= 3) of the constructors - SEQUENCE / SET shapes with OPTIONAL,
 \* DEFAULT and extension additions, CHOICE with extension alternatives, lists, and leaves of every class - so that
@@ -130,7 +139,7 @@ MixType(q, d) ==
 NMix == IF N <= 3 THEN 60 ELSE 300
 ZMix == [q \in 1..NMix |-> MixType(q + 100, 0)]
 
-Zoo == ZInts \o <<TBool, TNull>> \o ZEnums \o ZOcts \o ZBits \o ZStrs \o ZLists \o ZShapes \o ZClassShapes \o ZChoices \o ZNested \o ZAlign \o ZOpen \o ZWide \o ZMix \o ZBig
+Zoo == ZInts \o <<TBool, TNull>> \o ZEnums \o ZOcts \o ZBits \o ZStrs \o ZLists \o ZShapes \o ZClassShapes \o ZChoices \o ZNested \o ZAlign \o ZOpen \o ZWide \o ZSemi \o ZMix \o ZBig
 IsBig(i) == i > Len(Zoo) - Len(ZBig)
 
 (***************************************************************************)
@@ -153,7 +162,11 @@ IntVals(con) ==
                 ELSE {})
 
 \* a length family for a size constraint (out-of-range lengths included)
-LenVals(sz) == IF sz.c = "none" THEN {0, 1, 2, 3, 5} ELSE {x \in {sz.lb - 1, sz.lb, sz.lb + 1, sz.ub - 1, sz.ub, sz.ub + 1} : x >= 0}
+\* (SIZE(lb..MAX): the lengths around the lower bound, and two that need two octets of length determinant)
+UbOf(sz) == IF sz.ub = SzMAX THEN sz.lb + 2 ELSE sz.ub
+LenVals(sz) == IF sz.c = "none" THEN {0, 1, 2, 3, 5}
+               ELSE IF sz.ub = SzMAX THEN {x \in {sz.lb - 1, sz.lb, sz.lb + 1, 127, 128, 130} : x >= 0}
+               ELSE {x \in {sz.lb - 1, sz.lb, sz.lb + 1, sz.ub - 1, sz.ub, sz.ub + 1} : x >= 0}
 
 CharOf(cs, j) ==
   CASE cs = "num"  -> <<48, 57, 32, 53>>[(j % 4) + 1]
@@ -214,7 +227,7 @@ Rep(t) ==
                          ELSE IF t.con.lb = t.con.ub THEN <<t.con.lb>> ELSE <<t.con.lb + 1, t.con.ub>>
     [] t.k = "enum"   -> IF t.nroot + t.nadd = 1 THEN <<0>> ELSE <<t.nroot + t.nadd - 1, 0>>
     [] t.k \in {"oct", "bits", "str", "seqof"} ->
-         LET n == IF t.sz.c = "none" THEN 2 ELSE t.sz.lb IN <<ListOfLen(t, n), ListOfLen(t, IF t.sz.c = "none" THEN 0 ELSE t.sz.ub)>>
+         LET n == IF t.sz.c = "none" THEN 2 ELSE t.sz.lb IN <<ListOfLen(t, n), ListOfLen(t, IF t.sz.c = "none" THEN 0 ELSE UbOf(t.sz))>>
     [] t.k = "seq"    -> LET n == Len(t.comps)
                          IN <<[i \in 1..n |-> CompVal(t.comps[i], i, 1)],
                               [i \in 1..n |-> CompVal(t.comps[i], i, IF t.comps[i].mode = "man" /\ IsRoot(t, i) THEN 1
@@ -250,7 +263,7 @@ Values(t) ==
     [] t.k = "enum"   -> [j \in 1..(t.nroot + t.nadd) |-> j - 1]
     [] t.k \in {"oct", "bits", "seqof"} -> LET ls == SetToSeq(LenVals(t.sz)) IN [j \in 1..Len(ls) |-> ListOfLen(t, ls[j])]
     [] t.k = "str"    -> LET ls == SetToSeq(LenVals(t.sz))
-                             n == IF t.sz.c = "none" THEN 3 ELSE t.sz.ub
+                             n == IF t.sz.c = "none" THEN 3 ELSE UbOf(t.sz)
                              good == ListOfLen(t, n)
                              ps == SetToSeq({1, (n + 1) \div 2, n} \cap 1..n)
                          IN [j \in 1..Len(ls) |-> ListOfLen(t, ls[j])]
